@@ -80,3 +80,23 @@ Definition default_blocked (items : list ritem) (imported : list string) : bool 
 Definition in_default_derive (c : c02case) : bool :=
   existsb (fun m => default_blocked (m_items m) (imported_names c)) (model_modules c).
 Definition known_default_derive (c : c02case) : bool := negb (in_default_derive c).
+
+(* K14: a variable whose DEFAULT VALUE is of enum or input-object type.  The default_<name>() body is
+   rendered from the GraphQL literal without the generated names: an enum value as a bare identifier,
+   object members under their schema spelling, no Box / Option wrapping below the top level. *)
+Definition in_default_value_rendering (c : c02case) : bool :=
+  match schema_of_sdl (g_schema (c2_g c)) with
+  | Ok s =>
+      existsb (fun d =>
+        match d with
+        | QOp _ _ vars _ =>
+            existsb (fun v => vd_has_default v &&
+                              match find_kind_sdl s (gname (vd_type v)) with
+                              | Some KEnum | Some KInput => true
+                              | _ => false
+                              end) vars
+        | _ => false
+        end) (g_doc (c2_g c))
+  | _ => false
+  end.
+Definition known_default_value_rendering (c : c02case) : bool := negb (in_default_value_rendering c).
